@@ -261,28 +261,11 @@ func c04FeaturesRec(l []*c04Item, f map[string]bool, oracle bool) {
 				}
 				later[gs[i][0].x] = true
 			}
-			m := map[int]bool{}
-			for _, g := range gs {
-				c04Mentions(g[1:], m)
-			}
-			for _, x := range append(c04VarNames(it.b), c04LexNames(it.b)...) {
-				if m[x] && !later[x] {
-					f["default-captures-body-ref"] = true
-				}
-			}
 			if it.kind == c04KFunc && it.nm >= 0 {
 				for _, x := range append(append(c04VarNames(it.b), c04LexNames(it.b)...), c04HeadNames(it.a)...) {
 					if x == it.nm {
 						f["funcexpr-name-redeclared"] = true
 					}
-				}
-			}
-		case c04KClass:
-			if it.nm >= 0 {
-				m := map[int]bool{}
-				c04Mentions(it.a, m)
-				if m[it.nm] {
-					f["classexpr-name"] = true
 				}
 			}
 		case c04KCatch:
@@ -291,22 +274,16 @@ func c04FeaturesRec(l []*c04Item, f map[string]bool, oracle bool) {
 			if c04Intersects(c04HeadNames(it.a), c04VarNames(it.b)) {
 				f["catch-param-var-redeclared"] = true
 			}
-			// the catch parameter and the catch block share one Scope in /repo: a default value in
-			// the parameter pattern that c04Mentions a name the block declares lexically
-			{
-				m := map[int]bool{}
-				c04Mentions(it.a, m)
-				for _, x := range c04LexNames(it.b) {
-					if m[x] {
-						f["catch-head-ref-shadowed-in-body"] = true
-					}
+		case c04KFor:
+			// the loop head and the body block share one Scope in /repo: a name the head DECLARES (let / const /
+			// var) and the body block declares lexically (a name the head only mentions is kept apart by the
+			// NumArgUses mark since /repo 6a9c7af)
+			m := map[int]bool{}
+			for _, h := range it.a {
+				if h.kind == c04KDecl {
+					m[h.x] = true
 				}
 			}
-		case c04KFor:
-			// the loop head and the body block share one Scope in /repo: a name the head c04Mentions
-			// (declaration or reference) and the body block declares lexically
-			m := map[int]bool{}
-			c04Mentions(it.a, m)
 			for _, x := range c04LexNames(it.b) {
 				if m[x] {
 					f["loop-head-shadowed-in-body"] = true
@@ -796,8 +773,8 @@ func c04DefaultNames(ps []*c04Item) []int {
 }
 
 func c04FuncInCore(it *c04Item) bool {
-	return c04InCore(it.a, 1) && c04InCore(it.b, 0) &&
-		!c04Intersects(c04DefaultNames(it.a), append(c04VarNames(it.b), c04LexNames(it.b)...))
+	// a default value may mention a name the body declares (frozen by MarkFuncArgs; /repo 6a9c7af)
+	return c04InCore(it.a, 1) && c04InCore(it.b, 0)
 }
 
 // c04InCore mirrors Spec.core_x (ctx 0), Spec.pcore_x (ctx 1) and Spec.catch_params_only (ctx 2): the fragment
@@ -1169,6 +1146,18 @@ func c04Oracle(r *Rng, tier string, rep *Report) {
 		{"c04-es:rest-param-skips-markfuncargs", "var b;function f(a=b,...r){let b;r;}", []int64{0, 1, 2, 0, 3, 4, 3}},
 		{"c04-es:rest-param-skips-markfuncargs", "function f(a=b,...[x,y]){var b;x;y;}", []int64{0, 1, 2, 3, 4, 5, 3, 4}},
 		{"c04-es:rest-param-skips-markfuncargs", "(function(a=b,...{length:n}){var b;n;});b;", []int64{0, 1, 2, 3, 2, 1}},
+		// a use frozen by MarkFuncArgs is not adopted by a declaration of the body (fixed in /repo 6a9c7af:
+		// findUndeclared skips the NoDecl entries below NumArgUses)
+		{"c04-es:default-captures-body-ref", "var b;function f(a=b){b=2;var b;}", []int64{0, 1, 2, 0, 3, 3}},
+		{"c04-es:default-captures-body-ref", "var b;function f(a=function(){b;}){b;let b;}", []int64{0, 1, 2, 0, 3, 3}},
+		{"c04-es:default-captures-body-ref", "(a=b)=>{{b;}var b;};b;", []int64{0, 1, 2, 2, 1}},
+		{"c04-es:default-captures-body-ref", "var c;for(let b of c){c;let c;}", []int64{0, 1, 0, 2, 2}},
+		// the catch parameter pattern is marked like a parameter list (fixed in /repo 8db4a8d)
+		{"c04-es:catch-head-ref-shadowed-in-body", "var a;try{}catch({b=a}){let a;a;}", []int64{0, 1, 0, 2, 2}},
+		{"c04-es:catch-head-ref-shadowed-in-body", "var a;try{}catch([b=a,c=b]){a;let a;}", []int64{0, 1, 0, 2, 1, 3, 3}},
+		// the name of a class expression binds the references inside the class (fixed in /repo faa3812)
+		{"c04-es:classexpr-name", "(class A{m(){A;}});A;", []int64{0, 0, 1}},
+		{"c04-es:classexpr-name", "let A;(class A{static{A;}m(B){A;B;}});A;", []int64{0, 1, 1, 2, 1, 2, 0}},
 		// while / do / if / switch bodies are blocks
 		{"c04-es:stmt-blocks", "let a;if(a){let a;a;}else{a;}switch(a){case a:let b;b;}b;", []int64{0, 0, 1, 1, 0, 0, 0, 2, 2, 3}},
 	} {
